@@ -38,10 +38,11 @@ var upperCase = regexp.MustCompile(`[A-Z]`)
 // specScope: the part of the property's quantifier that is not already the reference's own
 // validity predicate.  C08: numeric identifiers of at most 18 digits; C13: letters in a single
 // case (lower) and numbers below 2^63 (go-univers keeps larger ones as text; "numbers incl. 0
-// and multi-digit" is read as machine integers); C12: numbers of at most 18 digits.
+// and multi-digit" is read as machine integers); C12: numbers of any length (since fix 94889ac;
+// before it the same 18-digit reading applied, and hid the defect of DESIGN 13.12).
 func specScope(id, eco, s string) bool {
 	switch id {
-	case "C08", "C12":
+	case "C08":
 		return !longDigits.MatchString(s)
 	case "C13":
 		// the property's shape: groups are .<letters>[N] or -<letters>[.N]: no empty '-' field
